@@ -122,6 +122,17 @@ def write_case(i, spec):
     return src
 
 
+def write_boot(i, spec):
+    """After an accepted compilation: the driver's boot code follows the signature the compiler generated."""
+    d = slot_dir(i)
+    try:
+        with open(os.path.join(d, "sdk", "src", "lib.rs")) as f:
+            sdk_src = f.read()
+    except FileNotFoundError:
+        sdk_src = ""
+    write_if_changed(os.path.join(d, "driver", "src", "boot.rs"), render.render_boot(spec, sdk_src))
+
+
 def build_app(i, timeout=900):
     """Compile the user crate + run the `bp` binary to persist the blueprint. A failure here is a generator bug."""
     d = slot_dir(i)
